@@ -341,6 +341,18 @@ class ServerSystem:
 
         idle._release_idle_handler, idle._abort_inner_run, idle._ensure_active_run_locked = release, abort, ensure
         basic.run_workflow = run_workflow
+        # rebuilding a run from its persisted ticks (server start-up and on-demand reload both go through this call):
+        # remember for which runs the stored history could not be replayed at all
+        self.rebuild_errors = {}
+        o_cft = self.persist.context_from_ticks
+
+        async def context_from_ticks(workflow, run_id, *a, **k):
+            try:
+                return await o_cft(workflow, run_id, *a, **k)
+            except Exception as e:
+                sysm.rebuild_errors[run_id] = "%s: %s" % (type(e).__name__, str(e)[:120])
+                raise
+        self.persist.context_from_ticks = context_from_ticks
         self._aborted = False
         # the external adapter's send_event (sends and cancels both go through it)
         from llama_agents.server._runtime import idle_release_runtime as IRM
@@ -705,7 +717,8 @@ def _final(s, hid):
     row = s.handler_row(hid)
     stuck = row["status"] == "running" and not s.rig.open_gates() and s.loop.next_timer() is None
     return {"status": row["status"], "result": row["result"], "has_result": row["has_result"], "error": row["error"] != "",
-            "store": s.store_keys(hid), "stuck": bool(stuck), "idle": row["idle"], "live_loops": s.live_loops(hid)}
+            "store": s.store_keys(hid), "stuck": bool(stuck), "idle": row["idle"], "live_loops": s.live_loops(hid),
+            "rebuild_error": s.handlers.get(hid) in getattr(s, "rebuild_errors", {})}
 
 
 def crash_cases(prog, workdir, order="fifo", seed=0, ext=(), horizon_ms=60000, idle_timeout=1000.0, ks=None,
